@@ -177,6 +177,7 @@ class Outcome:
         self.samples = []
         self.dist = {}
         self.known = []
+        self.harness_errors = []
 
     def count(self, key, n=1):
         self.dist[key] = self.dist.get(key, 0) + n
@@ -206,7 +207,12 @@ def evaluate(component, cases, outcome, keep_samples=3, batch=2000):
 
     for case in cases:
         outcome.cases += 1
-        qs = component.run_impl(case, outcome)
+        try:
+            qs = component.run_impl(case, outcome)
+        except Exception as e:  # noqa  -- the harness could not observe the implementation on this case
+            import traceback
+            outcome.harness_errors.append((case, "".join(traceback.format_exception_only(type(e), e)).strip()))
+            continue
         if len(outcome.samples) < keep_samples:
             outcome.samples.append(case)
         for q in qs:
